@@ -33,11 +33,9 @@ func checkC13(c *Ctx) {
 	// ---- (1) fresh task
 	callerCtx := refRun.Params[1]
 	var newTask *ssa.Call
-	allInstrs(refRun, func(in ssa.Instruction) {
-		if call, ok := in.(*ssa.Call); ok && call.Call.StaticCallee() == getCtx {
-			newTask = call
-		}
-	})
+	if rc := findCallThrough(refRun, getCtx); rc != nil {
+		newTask = rc.Call // in RefRun itself or in the helper that also initialises and runs
+	}
 	// InitCtx and RunStmts may be called by RefRun itself or by a helper it hands the new task to
 	initRC, runRC := findCallThrough(refRun, initCtx), findCallThrough(refRun, runStmts)
 	r.Ob("FRESH-TASK", "RefRun takes a task from GetContext", t.Pos(refRun.Pos()), newTask != nil, "the callee must not run on the caller's task")
@@ -162,11 +160,18 @@ func checkC13(c *Ctx) {
 	// RunStmts error arm: latch + return err
 	okErrArm := false
 	allInstrs(runStmts, func(in ssa.Instruction) {
+		latch := false
 		if s, ok := in.(*ssa.Store); ok && strings.HasSuffix(path(s.Addr), ".procExit") {
 			if cv, ok := s.Val.(*ssa.Const); ok && cv.Value != nil && cv.Value.ExactString() == "true" {
-				if ret, ok := s.Block().Instrs[len(s.Block().Instrs)-1].(*ssa.Return); ok && retError(ret) != "nil" {
-					okErrArm = true
-				}
+				latch = true
+			}
+		}
+		if call, ok := in.(*ssa.Call); ok && call.Call.StaticCallee() == setExit && len(call.Call.Args) > 0 && call.Call.Args[0] == ssa.Value(runStmts.Params[0]) {
+			latch = true // SetExit() on the executor's own task is that store
+		}
+		if latch {
+			if ret, ok := in.Block().Instrs[len(in.Block().Instrs)-1].(*ssa.Return); ok && retError(ret) != "nil" {
+				okErrArm = true
 			}
 		}
 	})
@@ -211,7 +216,7 @@ func checkC13(c *Ctx) {
 				case "true":
 					allowed = f == setExit || f == runStmts || f.Name() == "ProcExit"
 				case "false":
-					allowed = strings.HasPrefix(f.Name(), "InitCtx")
+					allowed = strings.HasPrefix(f.Name(), "InitCtx") || onlyCalledFromInit(t, f, 0)
 				}
 				// the receiver must be the function's own task parameter
 				own := rootOf(fa.X) == ssa.Value(f.Params[0])
@@ -219,7 +224,7 @@ func checkC13(c *Ctx) {
 			})
 		}
 	}
-	r.FloorN("procExit stores", nw, 5)
+	r.FloorN("procExit stores", nw, 3)
 	// readers of procExit outside the task's own methods: none in RefRun/Use
 	for _, f := range []*ssa.Function{refRun, use} {
 		reads := false
@@ -257,9 +262,29 @@ func checkC13(c *Ctx) {
 	pe := t.Method(pRT, "Task", "ProcExit")
 	okPE := pe != nil
 	if pe != nil {
+		// once the latch is set the answer is true whatever the signal: every return is the field itself, or a
+		// constant — false only under a tested-false latch
 		allInstrs(pe, func(in ssa.Instruction) {
-			if ret, ok := in.(*ssa.Return); ok && !strings.HasSuffix(path(ret.Results[0]), ".procExit") {
+			ret, ok := in.(*ssa.Return)
+			if !ok || strings.HasSuffix(path(ret.Results[0]), ".procExit") {
+				return
+			}
+			cv, isC := ret.Results[0].(*ssa.Const)
+			if !isC || cv.Value == nil {
 				okPE = false
+				return
+			}
+			if cv.Value.ExactString() == "false" {
+				clear := false
+				for _, ec := range controlling(ret.Block()) {
+					cs := condStr(ec.Cond)
+					if strings.HasSuffix(cs, ".procExit") && ((!strings.HasPrefix(cs, "!") && !ec.Pol) || (strings.HasPrefix(cs, "!") && ec.Pol)) {
+						clear = true
+					}
+				}
+				if !clear {
+					okPE = false
+				}
 			}
 		})
 	}
@@ -285,4 +310,26 @@ func retValueIs(ret *ssa.Return, v ssa.Value) bool {
 		}
 	}
 	return false
+}
+
+// onlyCalledFromInit: every call chain that reaches f starts at one of the task's init functions (InitCtx…): f is a
+// piece of the (re)initialisation moved into a helper.
+func onlyCalledFromInit(t *Tree, f *ssa.Function, depth int) bool {
+	if depth > 3 {
+		return false
+	}
+	sites := callersOf(t)[f]
+	if len(sites) == 0 || (f.Object() != nil && f.Object().Exported()) {
+		return false
+	}
+	for _, cs := range sites {
+		g := cs.Parent()
+		if strings.HasPrefix(g.Name(), "InitCtx") {
+			continue
+		}
+		if !onlyCalledFromInit(t, g, depth+1) {
+			return false
+		}
+	}
+	return true
 }
